@@ -20,10 +20,7 @@ func main() {
 	}
 	switch os.Args[1] {
 	case "list":
-		var ids []string
-		for id := range planBuilders {
-			ids = append(ids, id)
-		}
+		ids := knownProperties()
 		sort.Strings(ids)
 		for _, id := range ids {
 			fmt.Println(id)
@@ -53,12 +50,7 @@ func main() {
 		if s := os.Getenv("VERIF_SEED"); s != "" {
 			seed, _ = strconv.Atoi(s)
 		}
-		b, ok := planBuilders[id]
-		if !ok {
-			fmt.Println("unknown property", id)
-			os.Exit(2)
-		}
-		plan, err := b(tier)
+		plan, err := buildPlan(id, tier)
 		if err != nil {
 			fmt.Println("BROKEN: plan:", err)
 			os.Exit(2)
